@@ -3265,7 +3265,10 @@ fn apply_relocation<
         value = thunked_value;
     };
 
-    rel_info.write_to_buffer(value, &mut out[offset_in_section..])?;
+    let out = out.get_mut(offset_in_section..).with_context(|| {
+        format!("Relocation offset 0x{offset_in_section:x} is outside of its section")
+    })?;
+    rel_info.write_to_buffer(value, out)?;
 
     Ok(next_modifier)
 }
